@@ -11,6 +11,9 @@
 (*      implementation outputs, compared by the harness).                          *)
 (*   {"id": k, "kind": "scale", "sc": <scale case>, "obs": [<projection>, ...],     *)
 (*    "same": BOOLEAN}   (Hist.tla: HSFailing)                                     *)
+(*   {"id": k, "kind": "world", "w": <session>, "outs": [<observation per step>]}   *)
+(*      a session of calls / caller steps over two data objects in ONE process      *)
+(*      (Hist.tla: HWStepFailing; the observation of a caller step is a dummy)      *)
 (* The representation of the data argument, the entry point and the scalar kinds   *)
 (* are carried in the case but no clause mentions them: no value depends on them.  *)
 (* Rejected records are printed with the names of the failing clauses (history:    *)
@@ -56,7 +59,13 @@ FailingHistory(r) ==
 FailingScale(r) ==
     UNION {HSFailing(r.sc, r.obs[e]) : e \in DOMAIN r.obs} \cup (IF r.same THEN {} ELSE {"engines_differ"})
 
+\* world sessions: every call of a session executed in ONE process is judged on its own, with the contents its data
+\* object had at the time of the call (Hist.tla: HWStepFailing) - "<step>:<clause>"
+FailingWorld(r) ==
+    UNION {{StepNames[k] \o ":" \o cl : cl \in HWStepFailing(r.w, k, r.outs[k])} : k \in DOMAIN r.outs}
+
 FailingRec(r) == IF r.kind = "history" THEN FailingHistory(r)
+                 ELSE IF r.kind = "world" THEN FailingWorld(r)
                  ELSE IF r.kind = "scale" THEN FailingScale(r) ELSE FailingCase(r)
 
 Check == tid > 0 =>
